@@ -55,26 +55,31 @@ def receive (s : Sig) (w : World) (endTime : Option Nat) : Except Nat (Option Ca
 
 def nearestPub (s : Sig) (pf : PubFile) : Option PubRec := nearest pf.pubs s.signTime
 
-/-- the extension request that precedes a read rule in the predefined policies -/
-def fetchedFor (s : Sig) (w : World) (name : String) : Except Nat (Option CalChain) :=
-  if name.startsWith "UserProvidedPublication" then receive s w (w.userPub.map (·.time))
-  else if name.startsWith "PublicationsFile" then
+/-- which extension request precedes a read rule in the predefined policies -/
+inductive Fetch where
+  | head | samePub | user | pubfile
+deriving DecidableEq, Repr
+
+def fetched (s : Sig) (w : World) : Fetch → Except Nat (Option CalChain)
+  | .head => receive s w none
+  | .samePub => receive s w (s.cal.map (·.pubTime))
+  | .user => receive s w (w.userPub.map (·.time))
+  | .pubfile =>
     match w.pubfile with
     | .ok pf => match nearestPub s pf with
       | some p => receive s w (some p.time)
       | none => .error St.INVALID_STATE
     | .error e => .error e
-  else if name = "ExtendedSignatureCalendarChainRightLinksMatch" ∨ name = "ExtendedSignatureCalendarChainRootHash" then
-    receive s w (s.cal.map (·.pubTime))
-  else match s.cal with
-    | none => receive s w none
-    | some c => receive s w (some c.pubTime)
 
 /-- a read rule's view: the chain in `tempData`; without one `getExtendedCalendarHashChain` fails -/
-def extChain (s : Sig) (w : World) (name : String) : Except Nat CalChain :=
-  match fetchedFor s w name with
+def chainOf (s : Sig) (w : World) (k : Fetch) : Except Nat CalChain :=
+  match fetched s w k with
   | .ok (some c) => .ok c
   | _ => .error St.INVALID_STATE
+
+/-- the calendar-based policy fetches to the calendar head when the signature has no calendar chain, else to the same
+publication time -/
+def calKind (s : Sig) : Fetch := if s.cal.isNone then .head else .samePub
 
 def aggrOut (H : HashFn) (s : Sig) : Option Bytes :=
   match consistency H s.chains none 0 with
@@ -104,21 +109,21 @@ def ruleA (H : HashFn) (s : Sig) (x : VCtx) (w : World) (name : String) : Outcom
      | none => errOut St.INVALID_STATE
      | some c => match receive s w (some c.pubTime) with | .ok _ => okOut | .error e => resourceFailure e)
   | "ExtendedSignatureCalendarChainInputHash" =>
-    (match extChain s w name with
+    (match chainOf s w (calKind s) with
      | .error e => errOut e
      | .ok c => okIf (aggrOut H s == some c.inputHash) (failOut (CAL 2)))
   | "ExtendedSignatureCalendarChainAggregationTime" =>
-    (match extChain s w name, s.chains.head? with
+    (match chainOf s w (calKind s), s.chains.head? with
      | .ok c, some a => okIf (a.time == c.aggrTime.getD c.pubTime) (failOut (CAL 3))
      | .error e, _ => errOut e
      | _, none => errOut St.INVALID_ARGUMENT)
   | "ExtendedSignatureCalendarChainRightLinksMatch" =>
-    (match extChain s w name, s.cal with
+    (match chainOf s w .samePub, s.cal with
      | .ok c, some old => okIf (rightsOf old == rightsOf c) (failOut (CAL 4))
      | .error e, _ => errOut e
      | _, none => errOut St.INVALID_ARGUMENT)
   | "ExtendedSignatureCalendarChainRootHash" =>
-    (match extChain s w name, s.cal with
+    (match chainOf s w .samePub, s.cal with
      | .ok c, some old =>
        (match calRootOf H old, calRootOf H c with
         | .ok r1, .ok r2 => okIf (r1 == r2) (failOut (CAL 1))
@@ -154,21 +159,21 @@ def ruleA (H : HashFn) (s : Sig) (x : VCtx) (w : World) (name : String) : Outcom
      | none => errOut St.INVALID_ARGUMENT
      | some u => match receive s w (some u.time) with | .ok _ => okOut | .error e => resourceFailure e)
   | "UserProvidedPublicationExtendedCalendarChainHashAlgorithmDeprecatedAtPubTime" =>
-    (match extChain s w name with | .error e => errOut e | .ok c => okIf (!calDeprecated c) naGen)
+    (match chainOf s w .user with | .error e => errOut e | .ok c => okIf (!calDeprecated c) naGen)
   | "UserProvidedPublicationHashMatchesExtendedResponse" =>
-    (match extChain s w name, w.userPub with
+    (match chainOf s w .user, w.userPub with
      | .ok c, some u => (match calRootOf H c with | .ok r => okIf (r == u.imprint) (failOut (PUB 1)) | .error e => errOut e)
      | .error e, _ => errOut e
      | _, none => errOut St.INVALID_ARGUMENT)
   | "UserProvidedPublicationTimeMatchesExtendedResponse" =>
-    (match extChain s w name, w.userPub with
+    (match chainOf s w .user, w.userPub with
      | .ok c, some u =>
        if u.time != c.pubTime then failOut (PUB 2)
        else okIf (c.aggrTime == some s.signTime) (failOut (PUB 2))
      | .error e, _ => errOut e
      | _, none => errOut St.INVALID_ARGUMENT)
   | "UserProvidedPublicationExtendedSignatureInputHash" =>
-    (match extChain s w name with
+    (match chainOf s w .user with
      | .error e => errOut e
      | .ok c => okIf (aggrOut H s == some c.inputHash) (failOut (PUB 3)))
   -- ---- publications file ----
@@ -203,18 +208,18 @@ def ruleA (H : HashFn) (s : Sig) (x : VCtx) (w : World) (name : String) : Outcom
   | "PublicationsFileExtendedCalendarChainHashAlgorithmDeprecatedAtPubTime" =>
     (match w.pubfile with
      | .error e => resourceFailure e
-     | .ok _ => match extChain s w name with | .error e => errOut e | .ok c => okIf (!calDeprecated c) naGen)
+     | .ok _ => match chainOf s w .pubfile with | .error e => errOut e | .ok c => okIf (!calDeprecated c) naGen)
   | "PublicationsFilePublicationHashMatchesExtenderResponse" =>
     (match w.pubfile with
      | .error e => resourceFailure e
-     | .ok pf => match nearestPub s pf, extChain s w name with
+     | .ok pf => match nearestPub s pf, chainOf s w .pubfile with
        | some p, .ok c => (match calRootOf H c with | .ok r => okIf (r == p.imprint) (failOut (PUB 1)) | .error e => errOut e)
        | _, .error e => errOut e
        | none, _ => errOut St.UNKNOWN_ERROR)
   | "PublicationsFilePublicationTimeMatchesExtenderResponse" =>
     (match w.pubfile with
      | .error e => resourceFailure e
-     | .ok pf => match nearestPub s pf, extChain s w name with
+     | .ok pf => match nearestPub s pf, chainOf s w .pubfile with
        | some p, .ok c =>
          if p.time != c.pubTime then failOut (PUB 2)
          else okIf (c.aggrTime == some s.signTime) (failOut (PUB 2))
@@ -223,7 +228,7 @@ def ruleA (H : HashFn) (s : Sig) (x : VCtx) (w : World) (name : String) : Outcom
   | "PublicationsFileExtendedSignatureInputHash" =>
     (match w.pubfile with
      | .error e => resourceFailure e
-     | .ok _ => match extChain s w name with
+     | .ok _ => match chainOf s w .pubfile with
        | .error e => errOut e
        | .ok c => okIf (aggrOut H s == some c.inputHash) (failOut (PUB 3)))
   -- ---- key-based ----
